@@ -112,6 +112,13 @@ func transform(spec ModelSpec) ModelSpec {
 		defaultVal, err := strconv.ParseFloat(matches[10], 64)
 		if err != nil {
 			defaultVal = 0.0
+			// A parameter documented only as 'default=x' has no description (and
+			// no comma) before the default, which the template above swallows
+			// into the description.
+			bareDefault := regexp.MustCompile(fmt.Sprintf(`^\s*default=(%s)\s*$`, floatTemplate))
+			if m := bareDefault.FindStringSubmatch(description); m != nil {
+				defaultVal, _ = strconv.ParseFloat(m[1], 64)
+			}
 		}
 		minVal, err := strconv.ParseFloat(matches[2], 64)
 		if err != nil {
